@@ -330,6 +330,10 @@ class Model:
                 if name in domains and val in domains[name]:
                     domains[name] = {val}
 
+        # A variable with an empty domain (lb > ub) has no value
+        if any(not d for d in domains.values()):
+            return Result(None, 0, 0, 0, Status.INFEASIBLE)
+
         # Propagate initial constraints
         if not self._propagate(domains):
             return Result(None, 0, 0, 0, Status.INFEASIBLE)
